@@ -738,7 +738,7 @@ class Path:
         except AttributeError:
             step = 1
             start = (i * 2) + 1 if i >= 0 else (i * 2) + len(cur_t_path)
-            if start < 0 or start > len(cur_t_path):
+            if start < 0 or start >= len(cur_t_path):
                 raise IndexError('Path index out of range')
             stop = ((i + 1) * 2) + 1 if i >= 0 else ((i + 1) * 2) + len(cur_t_path)
 
